@@ -25,6 +25,7 @@ RULE = ("operation sequences over {accept from A/B (repeats allowed), peer close
         "doubles: every sequence up to length 4 (thorough 6) plus seeded random sequences of 8..40 operations over three "
         "addresses; plus repeated-peer-address reconnects over real loopback sockets; distinct = distinct (class, "
         "handshake delay, sequence); non-trivial = a peer address is accepted while it still has an entry")
+RULE = __import__("vf.core", fromlist=["rule_add"]).rule_add(RULE, 'entries whose peer has closed are removed with a shutdown that fails (ENOTCONN)')
 META = {"engine": "B history + D doubles", "technique": "connection-table model compared after every operation",
         "level_text": "all short operation sequences are enumerated and longer ones sampled; the model is a plain dict",
         "level_note": "peer addresses repeat only because doubles (or an RST + re-bind over loopback) make them repeat"}
